@@ -1,4 +1,5 @@
 import LexgenModel.Model.Compile
+import LexgenModel.Exec.StageCheck
 import LexgenModel.Exec.Bisim
 import LexgenModel.Exec.MachineWF
 import LexgenModel.Model.TableGen
@@ -301,14 +302,8 @@ def runSpecTrace (items : LexerDef) (cfg : Config U Nat Nat) (short : Bool) : Na
 
 /-! ## Stage comparison -/
 
-def accEqExact (a b : List Acc) : Bool := a == b
-
 def checkLine (prog check : String) (ok : Bool) (detail : String) : String :=
   s!"STAGE {prog} {check} {if ok then "ok" else "FAIL"} {detail}"
-
-def entryPairs (a b : List (String × Nat)) : Option (List (Nat × Nat)) :=
-  if a.length ≠ b.length then none else
-  a.mapM fun (name, i) => (b.find? (·.1 = name)).map fun e => (i, e.2)
 
 def showBisim (rr : BisimResult × Nat) (names : List String := []) : String :=
   let r := rr.1
@@ -360,6 +355,12 @@ def stageChecks (prog : String) (pd : ParsedDef) (dump : Dump) : List String := 
       checkLine prog "wf.eoi" wf.eoiOK "", checkLine prog "wf.acceptany" wf.acceptAnyOK "",
       checkLine prog "wf.flags" wf.flagsOK "", checkLine prog "wf.ctxidx" wf.ctxIdxOK "",
       checkLine prog "wf.state0" wf.state0OK ""]
+    -- no transition into a state without transitions (`simplify` turns those into `Accept` transitions; `bisim` cannot tell the two forms
+    -- apart, but an `InvalidToken` consumes one character more through the state form): needed by `dumped_machine_is_specification`
+    out := out ++ [checkLine prog "wf.gotolive" (gotoLive c.dfa && gotoLive dump.simp) ""]
+    -- the hypothesis of `dumped_machine_is_specification` as ONE predicate: when it holds, the model of the generated `next()` on the DUMPED
+    -- machine provably equals the executable specification on every input (for `DefOK ∧ DefNE` definitions)
+    out := out ++ [checkLine prog "stageok" (stageOK c dump.simp dump.entries1 dump.ctxs dump.inlined) ""]
     -- flags on the full DFA: locally closed; and compared with the model's analysis of the dumped graph
     let fullClosed := dump.full.all fun s =>
       (s.backtrack || !s.accepting.isEmpty) → (DFA.succs s).all fun t => (dump.full.st t).backtrack
